@@ -35,6 +35,10 @@ func vmFieldOf(info *types.Info, vmType *types.Named, e ast.Expr) *types.Var {
 		rt = pt.Elem()
 	}
 	if n, ok := rt.(*types.Named); !ok || n.Obj() != vmType.Obj() {
+		// a field of a record kept in a VM field (vm.budget.used)
+		if vmFieldOf(info, vmType, sel.X) != nil {
+			return v
+		}
 		return nil
 	}
 	return v
@@ -54,6 +58,12 @@ func fieldWrites(p *core.Program, vm *eng.VMModel) map[*types.Var][]token.Pos {
 				for _, l := range s.Lhs {
 					if f := vmFieldOf(info, vm.VMType, l); f != nil {
 						out[f] = append(out[f], l.Pos())
+						// writing a record-typed field writes the record's fields
+						for nf, parent := range vm.Nested {
+							if parent == f {
+								out[nf] = append(out[nf], l.Pos())
+							}
+						}
 					}
 				}
 			case *ast.IncDecStmt:
@@ -88,7 +98,8 @@ func mustReset(info *types.Info, p *core.Program, vm *eng.VMModel, stmts []ast.S
 		switch s := st.(type) {
 		case *ast.AssignStmt:
 			for i, l := range s.Lhs {
-				if vmFieldOf(info, vm.VMType, l) == f {
+				// assigning the record that holds f assigns f
+				if lf := vmFieldOf(info, vm.VMType, l); lf == f || (lf != nil && vm.Nested[f] == lf && s.Tok == token.ASSIGN) {
 					if s.Tok != token.ASSIGN {
 						// op-assign depends on the old value
 						res.values = append(res.values, l)
@@ -257,8 +268,8 @@ func runC07(p *core.Program, r *core.Report) {
 		}
 	}
 	r.Analysed["vm_fields_only_set_at_construction"] = untouched
-	r.Floor("R7.1", 8)
-	r.Floor("R7.2", 8)
+	r.Floor("R7.1", 7)
+	r.Floor("R7.2", 7)
 	r.Floor("R7.3", 7)
 }
 
